@@ -374,10 +374,15 @@ def size (env : Env) (d : Doc) : Nat :=
 
 def nonUndef (d : Doc) : Option Doc := if d.isUndef then none else some d
 
-/-- `FastStringToNumber<SizeT>` (Digit.hpp:186-202), 32-bit wrap-around, units < 128. -/
-def fastStrToNum : List Nat → Nat
-  | [] => 0
-  | c :: rest => rest.foldl (fun n c => (n * 10 + c + (2 ^ 32 - 48)) % 2 ^ 32) ((c + (2 ^ 32 - 48)) % 2 ^ 32)
+/-- the index a key denotes for `GetValue(key, length)` on an array (Value.hpp, after the repair
+"array key must be a plain decimal index"): 1 to 10 decimal digits (leading zeros allowed); anything else —
+the empty key, a sign, a space, a letter, `:` or `/`, eleven digits, units outside `0`..`9` of any width — denotes
+no element.  (Before the repair the key went unvalidated through `FastStringToNumber`: `""` and `"4294967296"`
+read element 0, `":"` element 10.) -/
+def arrayKeyIndex (k : List Nat) : Option Nat :=
+  if k.length = 0 ∨ k.length > 10 then none
+  else if k.all (fun c => decide (48 ≤ c ∧ c ≤ 57)) then some (k.foldl (fun n c => n * 10 + (c - 48)) 0)
+  else none
 
 /-- `GetValue(index)` on a value that is not a pointer (1128-1159). -/
 def childIdx (d : Doc) (i : Nat) : Option Doc :=
@@ -392,8 +397,8 @@ def childIdx (d : Doc) (i : Nat) : Option Doc :=
       | none => none
   | _ => none
 
-/-- `GetValue(key, length)` on a value that is not a pointer (1161-1195): an array parses the key as
-an index. -/
+/-- `GetValue(key, length)` on a value that is not a pointer (1161-1195): an array reads the key as
+a decimal index (`arrayKeyIndex`). -/
 def childKey (d : Doc) (k : Key) : Option Doc :=
   match d with
   | obj _ s =>
@@ -401,8 +406,11 @@ def childKey (d : Doc) (k : Key) : Option Doc :=
       | some v => nonUndef v
       | none => none
   | arr items =>
-      match items[fastStrToNum k]? with
-      | some v => nonUndef v
+      match arrayKeyIndex k with
+      | some i =>
+        match items[i]? with
+        | some v => nonUndef v
+        | none => none
       | none => none
   | _ => none
 
@@ -705,7 +713,10 @@ def setChild (d : Doc) (s : Sel) (x : Doc) : Doc :=
       match sl[i]? with
       | some (some (k, _)) => obj c (sl.set i (some (k, x)))
       | _ => d
-  | arr items, Sel.key k => arr (setAtIdx (fastStrToNum k) (fun _ => x) items)
+  | arr items, Sel.key k =>
+      match arrayKeyIndex k with
+      | some i => arr (setAtIdx i (fun _ => x) items)
+      | none => d
   | arr items, Sel.idx i => arr (setAtIdx i (fun _ => x) items)
   | _, _ => d
 
